@@ -10,7 +10,7 @@ use crate::prng::Rng;
 use crate::rm::decide::{Carrier, Stage, Verdict};
 use crate::run::{finish, preflight, Ctx, Report, Tally, Tier};
 
-pub const MUTATIONS: [&str; 41] = [
+pub const MUTATIONS: [&str; 42] = [
     "structured-edit-auth",
     "timestamp-alias",
     "timestamp-reoffset",
@@ -36,6 +36,7 @@ pub const MUTATIONS: [&str; 41] = [
     "header-drop-value",
     "header-swap-values",
     "host-byte",
+    "host-port",
     "body-byte",
     "body-append",
     "body-truncate",
@@ -55,7 +56,8 @@ pub const MUTATIONS: [&str; 41] = [
 ];
 
 /// mutations that change signed content by construction: acceptance is a violation whatever the model says
-const BY_CONSTRUCTION: [&str; 12] = [
+const BY_CONSTRUCTION: [&str; 13] = [
+    "host-port",
     "timestamp-reoffset",
     "body-byte", "body-append", "method", "timestamp-plus-1s", "timestamp-minus-1s", "secret-bit", "sig-digit", "sig-zero", "sig-nonhex", "form-pairs-edit", "timestamp-alias",
 ];
@@ -215,6 +217,25 @@ fn mutate(
                 b'z'
             };
             l2.host = h;
+        }
+        "host-port" => {
+            // the same host with / without the scheme's default port, another port, a trailing dot, another letter case of
+            // a label: the same server to a resolver, another signed Host value to the verifier
+            let h = l2.host.clone();
+            let text = String::from_utf8_lossy(&h).to_string();
+            let stripped = [":443", ":80", ":8443", "."].iter().find(|s| text.ends_with(**s)).map(|s| text[..text.len() - s.len()].to_string());
+            let nv = match (stripped, r.below(5)) {
+                (Some(bare), 0) | (Some(bare), 1) => bare,
+                (_, 2) => format!("{}:443", text),
+                (_, 3) => format!("{}:80", text),
+                (_, 4) => format!("{}.", text),
+                (Some(bare), _) => bare,
+                (None, _) => format!("{}:443", text),
+            };
+            if nv.as_bytes() == &h[..] || nv.is_empty() {
+                return None;
+            }
+            l2.host = nv.into_bytes();
         }
         "body-byte" => {
             if l2.form_pairs.is_some() || l2.body.is_empty() {
@@ -1039,7 +1060,7 @@ pub fn run(tier: Tier) -> i32 {
     ctx.exhaustive("signature positions 0-63 on each sig-position parent", true);
     let rep = Report {
         level: "exploration",
-        rule: "W-mutate: accepted W-sign parents (both carriers, all option sets, tokens) × one change each from a 41-entry catalogue (path/query/header/body/form pairs/method/timestamp incl. out-of-range aliases of the same instant and the same digits under another offset/secret/signature incl. decorated and non-hex/SignedHeaders list/Authorization grammar/carrier/server scope/token/raw URI byte), the child carrying the parent's signature; plus every signature position × wrong digits; plus 'twin' pairs — 18 pairs of byte strings that lossy UTF-8 decoding, Latin-1/UTF-8 confusion, Unicode normalisation, case folding or invisible-character handling map to one another — placed in a signed header value, a query name or value, a path segment or a folded form value (the nineteenth pair is one of spellings: a control byte escaped `%0X` in the parent, the same wire text with `%+X` in the child): the parent carries one member and is accepted, the child carries the other under the parent's signature. Oracles: shadow verifier (on every success the presented signature must equal the reference HMAC, under the key the provider returned in that execution, of the reference string-to-sign of the request as received) and a model-free metamorphic rule for changes that alter signed content by construction. Non-trivial = a child the reference model refuses at the signature stage and the library refused with the signature-mismatch class (i.e. the comparison itself was exercised); distinct by case hash.".into(),
+        rule: "W-mutate: accepted W-sign parents (both carriers, all option sets, tokens) × one change each from a 42-entry catalogue (path/query/header/body/form pairs/method/timestamp incl. out-of-range aliases of the same instant and the same digits under another offset/secret/signature incl. decorated and non-hex/SignedHeaders list/Authorization grammar/carrier/server scope/token/raw URI byte), the child carrying the parent's signature; plus every signature position × wrong digits; plus 'twin' pairs — 18 pairs of byte strings that lossy UTF-8 decoding, Latin-1/UTF-8 confusion, Unicode normalisation, case folding or invisible-character handling map to one another — placed in a signed header value, a query name or value, a path segment or a folded form value (the nineteenth pair is one of spellings: a control byte escaped `%0X` in the parent, the same wire text with `%+X` in the child): the parent carries one member and is accepted, the child carries the other under the parent's signature. Oracles: shadow verifier (on every success the presented signature must equal the reference HMAC, under the key the provider returned in that execution, of the reference string-to-sign of the request as received) and a model-free metamorphic rule for changes that alter signed content by construction. Non-trivial = a child the reference model refuses at the signature stage and the library refused with the signature-mismatch class (i.e. the comparison itself was exercised); distinct by case hash.".into(),
         assumptions: vec![
             "HMAC-SHA256 unforgeability is assumed (cryptographic half of the statement)".into(),
             "reference model calibrated on the AWS vectors".into(),
